@@ -14,18 +14,34 @@ from typing import Dict, List, Tuple
 HERE = os.path.dirname(os.path.abspath(__file__))
 sys.path.insert(0, os.path.dirname(HERE))
 
-from sa.mutate import EditError, run_variant  # noqa: E402
+from sa.mutate import EditError, run_patch, run_variant  # noqa: E402
 
 
 def load() -> Dict[str, dict]:
     with open(os.path.join(HERE, "variants.json")) as fh:
-        return json.load(fh)
+        data = json.load(fh)
+    # changes written by independent sub-agents (see /verif/seeded/*/meta.json): each one is a breaking variant for the claimed
+    # properties it really breaks and a behaviour-preserving variant for all the others
+    seeded = os.path.join(os.path.dirname(HERE), "seeded")
+    if os.path.isdir(seeded):
+        for name in sorted(os.listdir(seeded)):
+            mp = os.path.join(seeded, name, "meta.json")
+            if not os.path.isfile(mp):
+                continue
+            with open(mp) as fh:
+                meta = json.load(fh)
+            for prop in data:
+                data[prop][f"seeded:{name}"] = {"patch": os.path.join(seeded, name, "patch.diff"),
+                                                "expect": "fire" if prop in meta.get("breaks_claimed_properties", []) else "silent"}
+    return data
 
 
 def run_one(prop: str, name: str, spec: dict) -> Tuple[str, str, str, str]:
-    edits = [tuple(e) for e in spec["edits"]]
     try:
-        code, out = run_variant(prop, edits)
+        if "patch" in spec:
+            code, out = run_patch(prop, spec["patch"])
+        else:
+            code, out = run_variant(prop, [tuple(e) for e in spec["edits"]])
     except EditError as e:
         return name, spec["expect"], "skipped", str(e)[:120]
     except Exception as e:   # pragma: no cover
